@@ -13,6 +13,8 @@ def run(chk):
     batcher.check_consumer(chk, "C05")
     from . import state_contracts
     state_contracts.completion_event_contract(chk, "C05")   # a released caller sees the failure if there was one
+    from . import wrapper_contracts
+    wrapper_contracts.client_forwards(chk, "C05")           # the last hop: the service client sends one wire update per update, in order
     bounded_conformance(chk)
 
 
